@@ -846,6 +846,22 @@ void ObjsEngine::op_svd(const Step& st)
   for (int i = 1; i <= m; i++) for (int k = 1; k <= m; k++) if (!(std::fabs(AP.at(i, k) - AP.at(k, i)) <= mt)) throw Fail{"C15:algebra:pinv", fmt("A*A+ not symmetric at (%d,%d)", i, k)};
   for (int i = 1; i <= n; i++) for (int k = 1; k <= n; k++) if (!(std::fabs(PA.at(i, k) - PA.at(k, i)) <= mt)) throw Fail{"C15:algebra:pinv", fmt("A+*A not symmetric at (%d,%d)", i, k)};
   L->line("  svd m=%d n=%d rank=%d w1=%s", m, n, rank, hexfloat(W(1)).c_str());
+  // pinv of a WIDE matrix (fewer rows than columns): the transposed problem, same four conditions
+  if (st.arg(2) % 2 == 1 && m > n) {
+    Model At; At.shape(T_MAT, n, m, 0); for (int i = 1; i <= m; i++) for (int k = 1; k <= n; k++) At.at(k, i) = A.at(i, k);
+    RMat Aw(n, m); for (int i = 1; i <= n; i++) for (int k = 1; k <= m; k++) Aw(i, k) = At.at(i, k);
+    RMat Pw = GNU_gama::pinv(Aw);
+    if (Pw.rows() != m || Pw.cols() != n) throw Fail{"C15:algebra:pinv", "dimensions of the pseudo-inverse of a wide matrix are wrong"};
+    Model Q; Q.shape(T_MAT, m, n, 0); for (int i = 1; i <= m; i++) for (int k = 1; k <= n; k++) Q.at(i, k) = Pw(i, k);
+    Model AQ, QA, AQA, QAQ; double s2, qmax = 0; for (double v : Q.d) qmax = std::max(qmax, std::fabs(v));
+    mm(At, Q, AQ, s2); mm(Q, At, QA, s2); mm(AQ, At, AQA, s2); mm(QA, Q, QAQ, s2);
+    double wt = 1e-8 * (1 + amax) * (1 + qmax) * (1 + amax) * (m + n);
+    for (int i = 1; i <= n; i++) for (int k = 1; k <= m; k++) if (!(std::fabs(AQA.at(i, k) - At.at(i, k)) <= wt)) throw Fail{"C15:algebra:pinv", fmt("wide %dx%d: A*A+*A != A at (%d,%d)", n, m, i, k)};
+    for (int i = 1; i <= m; i++) for (int k = 1; k <= n; k++) if (!(std::fabs(QAQ.at(i, k) - Q.at(i, k)) <= wt)) throw Fail{"C15:algebra:pinv", fmt("wide %dx%d: A+*A*A+ != A+ at (%d,%d)", n, m, i, k)};
+    for (int i = 1; i <= n; i++) for (int k = 1; k <= n; k++) if (!(std::fabs(AQ.at(i, k) - AQ.at(k, i)) <= wt)) throw Fail{"C15:algebra:pinv", fmt("wide %dx%d: A*A+ not symmetric", n, m)};
+    for (int i = 1; i <= m; i++) for (int k = 1; k <= m; k++) if (!(std::fabs(QA.at(i, k) - QA.at(k, i)) <= wt)) throw Fail{"C15:algebra:pinv", fmt("wide %dx%d: A+*A not symmetric", n, m)};
+    ST->state("triples", fmt("pinv/Mat/wide-%s", rank == n ? "full-rank" : "rank-deficient"));
+  }
 }
 
 void ObjsEngine::op_conv(const Step& st)
